@@ -497,17 +497,19 @@ func applyPush(ctx Context, doc bsonkit.Doc, name, path string, v interface{}) e
 	}
 
 	// no-op if neither the array contents nor its length changed (e.g. empty
-	// $each with no other modifiers): skip the change record entirely
-	if len(values) == 0 && !hasPosition && !hasSort && !hasSlice {
+	// $each with no other modifiers on an existing array): skip the change
+	// record entirely
+	if len(values) == 0 && !hasPosition && !hasSort && !hasSlice && field != bsonkit.Missing {
 		return nil
 	}
 
 	// record changes: a plain push and a pure $each-append both leave existing
 	// elements in place, so we record per-element changes (matching the
 	// pre-modifier behavior). Anything that can shift elements ($position not
-	// at end, $sort, $slice) records the whole array.
+	// at end, $sort, $slice) records the whole array, and so does a push that
+	// created the array (there is no array the elements could be set in).
 	changes := ctx.Value.(*Changes)
-	if !hasSort && !hasSlice && insertAt == len(arr) {
+	if !hasSort && !hasSlice && insertAt == len(arr) && field != bsonkit.Missing {
 		startIdx := insertAt
 		for i, val := range values {
 			err := changes.Record(path+"."+strconv.Itoa(startIdx+i), val)
